@@ -1,1 +1,495 @@
-fn main() {}
+//! C17 — `--async` directives select exactly the documented functions.
+//!
+//! Space: all directive lists up to a length bound over a fixed alphabet, against one world
+//! with sync and `async` functions at world level and in an interface, imported and exported,
+//! including resource methods. Reference = the property statement ("first matching directive
+//! in order wins, else the WIT `async` flag").
+
+use clap::Parser;
+use e5_decl::extract::extract;
+use e5_decl::gen::{generate, load, Backend};
+use e5_decl::oracle::{abi_forms, expected, Expected};
+use serde_json::{json, Value};
+use std::collections::{BTreeMap, BTreeSet};
+use wit_bindgen_core::AsyncFilterSet;
+use wit_parser::{Resolve, WorldId, WorldItem, WorldKey};
+
+const WIT: &str = r#"package t:c17;
+
+interface iface {
+  resource r {
+    constructor();
+    m: func(a: u32) -> u32;
+    am: async func(a: u32) -> u32;
+  }
+  g: func(a: u32) -> u32;
+  ag: async func(a: u32) -> u32;
+}
+
+world w {
+  import iface;
+  export iface;
+  import f: func(s: string) -> string;
+  export f: func(s: string) -> string;
+  import af: async func(s: string) -> string;
+  export af: async func(s: string) -> string;
+  import only-imp: func();
+  export only-exp: func();
+}
+"#;
+
+/// directive alphabet; the first `REDUCED` entries form the reduced alphabet
+const ALPHABET: &[&str] = &[
+    "all",
+    "-all",
+    "f",
+    "-af",
+    "import:f",
+    "-export:af",
+    "t:c17/iface#g",
+    "nosuch",
+    // ---- end of the reduced alphabet
+    "-f",
+    "export:f",
+    "-import:f",
+    "-export:f",
+    "import:af",
+    "-t:c17/iface#ag",
+    "import:t:c17/iface#g",
+    "-export:t:c17/iface#ag",
+    "t:c17/iface#[method]r.m",
+    "-import:t:c17/iface#[method]r.am",
+    "export:only-imp",
+    "iface#g",
+];
+const REDUCED: usize = 8;
+
+#[derive(Clone, Debug)]
+struct Func {
+    /// name the documentation gives: `f` or `ns:pkg/iface#func`
+    qualified: String,
+    wit_async: bool,
+    import: bool,
+    /// index in `Expected::import_funcs` / `Expected::funcs`
+    idx: usize,
+    key: Option<WorldKey>,
+    name: String,
+}
+
+/// The reference, written from the property statement and the option's documentation.
+fn reference(list: &[&str], qualified: &str, import: bool, wit_async: bool) -> (bool, Option<usize>) {
+    for (i, d) in list.iter().enumerate() {
+        let (enabled, rest) = match d.strip_prefix('-') {
+            Some(r) => (false, r),
+            None => (true, *d),
+        };
+        if rest == "all" {
+            return (enabled, Some(i));
+        }
+        let (dir, name) = if let Some(n) = rest.strip_prefix("import:") {
+            (Some(true), n)
+        } else if let Some(n) = rest.strip_prefix("export:") {
+            (Some(false), n)
+        } else {
+            (None, rest)
+        };
+        if dir.map_or(true, |d| d == import) && name == qualified {
+            return (enabled, Some(i));
+        }
+    }
+    (wit_async, None)
+}
+
+fn is_all(d: &str) -> bool {
+    d == "all" || d == "-all"
+}
+
+fn lists(alphabet: &[&'static str], max_len: usize) -> Vec<Vec<&'static str>> {
+    let mut out: Vec<Vec<&'static str>> = vec![vec![]];
+    let mut frontier: Vec<Vec<&'static str>> = vec![vec![]];
+    for _ in 0..max_len {
+        let mut next = vec![];
+        for l in &frontier {
+            for a in alphabet {
+                let mut n = l.clone();
+                n.push(*a);
+                next.push(n);
+            }
+        }
+        out.extend(next.iter().cloned());
+        frontier = next;
+    }
+    out
+}
+
+fn functions(resolve: &Resolve, world: WorldId, exp: &Expected) -> Vec<Func> {
+    let mut out = vec![];
+    for (import, items) in [(true, &resolve.worlds[world].imports), (false, &resolve.worlds[world].exports)] {
+        let infos = if import { &exp.import_funcs } else { &exp.funcs };
+        for (key, item) in items.iter() {
+            let mut push = |k: Option<&WorldKey>, name: &str| {
+                let iface = k.map(|k| resolve.name_world_key(k));
+                let idx = infos
+                    .iter()
+                    .position(|f| f.iface == iface && f.name == name)
+                    .unwrap_or_else(|| vcommon::machinery("function table mismatch"));
+                out.push(Func {
+                    qualified: match &iface {
+                        Some(i) => format!("{i}#{name}"),
+                        None => name.to_string(),
+                    },
+                    wit_async: infos[idx].wit_async,
+                    import,
+                    idx,
+                    key: k.cloned(),
+                    name: name.to_string(),
+                });
+            };
+            match item {
+                WorldItem::Function(f) => push(None, &f.name),
+                WorldItem::Interface { id, .. } => {
+                    for (n, _) in resolve.interfaces[*id].functions.iter() {
+                        push(Some(key), n);
+                    }
+                }
+                WorldItem::Type { .. } => {}
+            }
+        }
+    }
+    out
+}
+
+fn lookup<'a>(resolve: &'a Resolve, world: WorldId, f: &Func) -> &'a wit_parser::Function {
+    let items = if f.import { &resolve.worlds[world].imports } else { &resolve.worlds[world].exports };
+    match &f.key {
+        None => match &items[&WorldKey::Name(f.name.clone())] {
+            WorldItem::Function(x) => x,
+            _ => unreachable!(),
+        },
+        Some(k) => match &items[k] {
+            WorldItem::Interface { id, .. } => &resolve.interfaces[*id].functions[&f.name],
+            _ => unreachable!(),
+        },
+    }
+}
+
+#[derive(Parser)]
+struct FilterArgs {
+    #[clap(flatten)]
+    set: AsyncFilterSet,
+}
+
+/// observer (1): `AsyncFilterSet::is_async`, set built through the clap parser (as the CLI does)
+/// and, independently, through `push`; both must agree with the reference for every function in
+/// both directions.
+fn check_is_async(resolve: &Resolve, world: WorldId, funcs: &[Func], list: &[&str]) -> Vec<(String, String)> {
+    let mut bad = vec![];
+    let mut argv = vec!["x".to_string()];
+    for d in list {
+        argv.push(format!("--async={d}"));
+    }
+    let mut parsed = match FilterArgs::try_parse_from(&argv) {
+        Ok(a) => a.set,
+        Err(e) => {
+            bad.push(("is_async:parse".to_string(), format!("directive list {list:?} is rejected by the option parser: {e}")));
+            return bad;
+        }
+    };
+    let mut pushed = AsyncFilterSet::default();
+    for d in list {
+        pushed.push(d);
+    }
+    // also the comma-separated spelling
+    let mut comma = if list.is_empty() {
+        AsyncFilterSet::default()
+    } else {
+        match FilterArgs::try_parse_from(["x".to_string(), format!("--async={}", list.join(","))]) {
+            Ok(a) => a.set,
+            Err(e) => {
+                bad.push(("is_async:parse-comma".to_string(), format!("{list:?}: {e}")));
+                return bad;
+            }
+        }
+    };
+    for f in funcs {
+        let func = lookup(resolve, world, f);
+        for import in [true, false] {
+            let (want, _) = reference(list, &f.qualified, import, f.wit_async);
+            for (how, set) in [("clap", &mut parsed), ("push", &mut pushed), ("comma", &mut comma)] {
+                let got = set.is_async(resolve, f.key.as_ref(), func, import);
+                if got != want {
+                    bad.push((
+                        format!(
+                            "is_async:{}:{}:got={got},want={want}",
+                            f.qualified,
+                            if import { "import" } else { "export" }
+                        ),
+                        format!(
+                            "AsyncFilterSet({how}) {list:?}: is_async({}, {}) = {got}, the documented rule gives {want}",
+                            f.qualified,
+                            if import { "import" } else { "export" }
+                        ),
+                    ));
+                }
+            }
+        }
+    }
+    bad
+}
+
+const GEN_BACKENDS: [Backend; 4] = [Backend::Rust, Backend::C, Backend::MoonBit, Backend::Go];
+
+/// observers (2) and (3): real generation
+fn check_generated(
+    base: &Resolve,
+    world: WorldId,
+    exp: &Expected,
+    funcs: &[Func],
+    list: &[&str],
+    b: Backend,
+) -> (Vec<(String, String)>, Value) {
+    let mut bad = vec![];
+    let mut args: Vec<String> = match b {
+        Backend::Rust => vec!["--generate-all".into(), "--stubs".into()],
+        Backend::Go => vec!["--generate-stubs".into()],
+        _ => vec![],
+    };
+    for d in list {
+        args.push(format!("--async={d}"));
+    }
+    // reference for the "unused directive" rule
+    let mut first_match: BTreeSet<usize> = BTreeSet::new();
+    for f in funcs {
+        if let (_, Some(i)) = reference(list, &f.qualified, f.import, f.wit_async) {
+            first_match.insert(i);
+        }
+    }
+    let matches_anything = |d: &str| -> bool {
+        funcs.iter().any(|f| reference(&[d], &f.qualified, f.import, f.wit_async).1.is_some())
+    };
+    let must_error = list.iter().any(|d| !is_all(d) && !matches_anything(d));
+    let must_succeed = list.iter().enumerate().all(|(i, d)| is_all(d) || first_match.contains(&i));
+
+    let mut resolve = base.clone();
+    let r = vcommon::catch(|| generate(b, &args, &mut resolve, world));
+    let zone = if must_error {
+        "must-error"
+    } else if must_succeed {
+        "must-succeed"
+    } else {
+        "shadowed-directive"
+    };
+    let mut info = json!({"backend": b.name(), "zone": zone});
+    let g = match r {
+        Err(p) => {
+            bad.push((format!("{}:panic", b.name()), format!("{} panics on --async {list:?}: {p}", b.name())));
+            return (bad, info);
+        }
+        Ok(Err(e)) => {
+            let msg = format!("{e:#}");
+            info["outcome"] = json!("error");
+            if b == Backend::Rust && msg.contains("unused async option") {
+                if must_succeed {
+                    bad.push((
+                        "rust-unused:rejects-a-list-whose-directives-all-select-something".to_string(),
+                        format!("Rust generator rejects {list:?} with `{msg}` although every directive is the first match of some function"),
+                    ));
+                }
+            } else {
+                bad.push((
+                    format!("{}:generation-error", b.name()),
+                    format!("{} fails on --async {list:?}: {msg}", b.name()),
+                ));
+            }
+            return (bad, info);
+        }
+        Ok(Ok(g)) => g,
+    };
+    info["outcome"] = json!("ok");
+    if b == Backend::Rust && must_error {
+        bad.push((
+            "rust-unused:accepts-a-directive-that-matches-nothing".to_string(),
+            format!("Rust generator accepts {list:?} although a directive matches no function of the world"),
+        ));
+    }
+    let decls = match extract(b, &g.files) {
+        Ok(d) => d,
+        Err(e) => vcommon::machinery(&format!("extractor({}): {e} for --async {list:?}", b.name())),
+    };
+    let (imp, ex) = abi_forms(exp, &decls);
+    for f in funcs {
+        let (want, _) = reference(list, &f.qualified, f.import, f.wit_async);
+        let want_s = if want { "async" } else { "sync" };
+        let got = if f.import { imp.get(&f.idx) } else { ex.get(&f.idx) };
+        let got_s: Vec<String> = got.map(|s| s.iter().cloned().collect()).unwrap_or_default();
+        if got_s != [want_s.to_string()] {
+            bad.push((
+                format!(
+                    "{}:abi:{}:{}:got={},want={want_s}",
+                    b.name(),
+                    f.qualified,
+                    if f.import { "import" } else { "export" },
+                    if got_s.is_empty() { "none".to_string() } else { got_s.join("+") }
+                ),
+                format!(
+                    "{} with --async {list:?}: {} `{}` is bound {} but the documented rule gives {want_s}",
+                    b.name(),
+                    if f.import { "import" } else { "export" },
+                    f.qualified,
+                    if got_s.is_empty() { "not at all".to_string() } else { got_s.join("+") },
+                ),
+            ));
+        }
+    }
+    (bad, info)
+}
+
+fn main() {
+    vcommon::install_quiet_panic_hook();
+    let mut run = vcommon::Run::from_args("C17", "exploration");
+    let (resolve, world) = load(None, Some(WIT)).unwrap_or_else(|e| vcommon::machinery(&format!("C17 world: {e:#}")));
+    let exp = expected(&resolve, world);
+    let funcs = functions(&resolve, world, &exp);
+    if funcs.len() != 16 {
+        vcommon::machinery(&format!("expected 16 function bindings in the C17 world, found {}", funcs.len()));
+    }
+
+    if let Some(d) = run.replay_detail() {
+        let list: Vec<String> = d["list"].as_array().unwrap().iter().map(|x| x.as_str().unwrap().to_string()).collect();
+        let list: Vec<&str> = list.iter().map(|s| s.as_str()).collect();
+        println!("replaying --async {list:?} (key {})", d["key"]);
+        let mut bad = check_is_async(&resolve, world, &funcs, &list);
+        for b in GEN_BACKENDS {
+            let (v, info) = check_generated(&resolve, world, &exp, &funcs, &list, b);
+            println!("  {info}");
+            bad.extend(v);
+        }
+        for (k, w) in &bad {
+            println!("  VIOLATES {k} — {w}");
+        }
+        std::process::exit(if bad.is_empty() { 0 } else { 1 });
+    }
+
+    // ---- (1) is_async over all lists
+    let n1 = run.pick(3, 4);
+    let all = lists(ALPHABET, n1);
+    // ---- (2)+(3) generation: full alphabet to length n2, reduced alphabet to length n3
+    let (n2, n3) = run.pick((2, 3), (3, 4));
+    let mut gen_lists = lists(ALPHABET, n2);
+    let seen: BTreeSet<Vec<&str>> = gen_lists.iter().cloned().collect();
+    for l in lists(&ALPHABET[..REDUCED], n3) {
+        if !seen.contains(&l) {
+            gen_lists.push(l);
+        }
+    }
+    // Go follows the same AsyncFilterSet; it is exercised in the thorough tier only
+    let backends: Vec<Backend> =
+        GEN_BACKENDS.iter().copied().filter(|b| run.thorough() || *b != Backend::Go).collect();
+    let chunk = 256usize;
+    let nchunks1 = all.len().div_ceil(chunk);
+    let njobs2 = gen_lists.len() * backends.len();
+    let total = nchunks1 + njobs2;
+    let rot = (run.seed as usize) % total.max(1);
+    let results = vcommon::par_map(total, vcommon::ncpu(), |j| {
+        let j = (j + rot) % total;
+        if j < nchunks1 {
+            let mut bad = vec![];
+            let mut outcomes: BTreeSet<String> = BTreeSet::new();
+            for l in &all[j * chunk..((j + 1) * chunk).min(all.len())] {
+                for (k, w) in check_is_async(&resolve, world, &funcs, l) {
+                    bad.push(json!({"key": k, "what": w, "list": l}));
+                }
+                // distinct outcome = the vector of reference answers for all 32 queries
+                let sigv: String = funcs
+                    .iter()
+                    .flat_map(|f| [true, false].map(|d| if reference(l, &f.qualified, d, f.wit_async).0 { 'a' } else { 's' }))
+                    .collect();
+                outcomes.insert(sigv);
+            }
+            json!({"kind": 1, "n": ((j + 1) * chunk).min(all.len()) - j * chunk, "bad": bad, "outcomes": outcomes})
+        } else {
+            let k = j - nchunks1;
+            let l = &gen_lists[k / backends.len()];
+            let b = backends[k % backends.len()];
+            let (bad, info) = check_generated(&resolve, world, &exp, &funcs, l, b);
+            json!({"kind": 2, "info": info, "list": l,
+                   "bad": bad.into_iter().map(|(k, w)| json!({"key": k, "what": w, "list": l})).collect::<Vec<_>>()})
+        }
+    });
+
+    let mut evals1 = 0usize;
+    let mut outcomes: BTreeSet<String> = BTreeSet::new();
+    let mut zones: BTreeMap<String, usize> = BTreeMap::new();
+    let mut samples = vcommon::Samples::new(10);
+    // key → (what, shortest list)
+    let mut viol: BTreeMap<String, (String, Vec<String>, usize)> = BTreeMap::new();
+    for r in &results {
+        if r["kind"] == 1 {
+            evals1 += r["n"].as_u64().unwrap() as usize;
+            for o in r["outcomes"].as_array().unwrap() {
+                outcomes.insert(o.as_str().unwrap().to_string());
+            }
+        } else {
+            let z = format!(
+                "{}:{}:{}",
+                r["info"]["backend"].as_str().unwrap_or(""),
+                r["info"]["zone"].as_str().unwrap_or(""),
+                r["info"]["outcome"].as_str().unwrap_or("")
+            );
+            *zones.entry(z).or_insert(0) += 1;
+            samples.offer(|| json!({"async": r["list"], "observed": r["info"]}));
+        }
+        for b in r["bad"].as_array().unwrap() {
+            let key = b["key"].as_str().unwrap().to_string();
+            let list: Vec<String> = b["list"].as_array().unwrap().iter().map(|x| x.as_str().unwrap().to_string()).collect();
+            let e = viol.entry(key).or_insert((b["what"].as_str().unwrap().to_string(), list.clone(), 0));
+            e.2 += 1;
+            if list.len() < e.1.len() {
+                e.0 = b["what"].as_str().unwrap().to_string();
+                e.1 = list;
+            }
+        }
+    }
+    for (key, (what, list, n)) in &viol {
+        run.violation(key, &format!("{what} [{n} directive lists]"), json!({"list": list, "key": key}));
+    }
+    let cov = json!({
+        "evaluations": evals1 * 32 * 3 + njobs2,
+        "directive_lists_is_async": evals1,
+        "is_async_queries": evals1 * 32 * 3,
+        "generations": njobs2,
+        "distinct_nontrivial": outcomes.len(),
+        "rule": "distinct vectors of the reference's 32 answers (16 function bindings x 2 directions) produced by the enumerated directive lists",
+        "exhaustive": true,
+        "bounds": {
+            "alphabet": ALPHABET,
+            "reduced_alphabet": &ALPHABET[..REDUCED],
+            "is_async_max_list_length": n1,
+            "generation_max_list_length_full_alphabet": n2,
+            "generation_max_list_length_reduced_alphabet": n3,
+            "generation_backends": backends.iter().map(|b| b.name()).collect::<Vec<_>>(),
+            "world": WIT,
+            "function_bindings": funcs.iter().map(|f| format!("{} {}{}", if f.import { "import" } else { "export" }, f.qualified, if f.wit_async { " (async)" } else { "" })).collect::<Vec<_>>(),
+        },
+        "oracle": "first directive (in order) whose name and direction match decides; otherwise the WIT async flag; compared with AsyncFilterSet::is_async (clap, comma-separated, push) and with the [async-lower]/[async-lift] core names in generated Rust/C/MoonBit/Go; Rust must fail with 'unused async option' when a directive matches nothing and must not fail when every directive is some function's first match",
+        "distinct_outcomes": zones,
+        "samples": samples.items,
+    });
+    println!(
+        "C17: {} directive lists x 32 queries x 3 construction paths; {} generations; {} distinct reference outcome vectors",
+        evals1,
+        njobs2,
+        outcomes.len()
+    );
+    for (z, n) in &zones {
+        println!("  {z}: {n}");
+    }
+    run.finish(
+        cov,
+        vec![
+            "the function name a directive is compared with is `name` for world-level functions and `<world key>#<name>` for interface functions, as the option's documentation states".into(),
+            "a directive that names an existing function/direction but is shadowed by an earlier directive for every function is in a grey zone of the statement ('matched nothing'): the Rust generator may accept or reject it (observed behaviour is counted under distinct_outcomes)".into(),
+            "resource constructors follow the same rule as every other function (`all` makes them async); the component model has no async constructors, which is C13's subject, not C17's".into(),
+        ],
+    );
+}
